@@ -32,6 +32,8 @@ type c08Node struct {
 	received [][]*phase0.Attestation
 	msgs     [][]*altair.SyncCommitteeMessage
 	cutOff   bool // the context it was called with was cancelled before it had answered
+	// versionFails: the node does not answer the version request at the moment (restarting, unreachable)
+	versionFails bool
 }
 
 func (n *c08Node) Name() string    { return n.name }
@@ -39,6 +41,9 @@ func (n *c08Node) Address() string { return n.name }
 func (n *c08Node) IsActive() bool  { return true }
 func (n *c08Node) IsSynced() bool  { return true }
 func (n *c08Node) NodeVersion(_ context.Context, _ *api.NodeVersionOpts) (*api.Response[string], error) {
+	if n.versionFails {
+		return nil, errors.New("mock node version failure")
+	}
 	return &api.Response[string]{Data: n.client, Metadata: map[string]any{}}, nil
 }
 
